@@ -94,4 +94,25 @@ mut("C11 literal 1.5 for D/2 in the jacobian", [(SAM, "        .powf(&const_buil
 mut("C11 dod exponent on the u ratio", [(SAM, "            .powf(&const_builder.from_f64(tropical_subgraph_table.tropical_graph.dod))\n        * const_builder.from_f64(tropical_subgraph_table.cached_factor);", "            .powf(&const_builder.from_f64(tropical_subgraph_table.tropical_graph.dod + 0.0 * tropical_subgraph_table.dimension as f64))\n        * const_builder.from_f64(tropical_subgraph_table.cached_factor);")], C11=None)
 mut("C11 jacobian without cached factor", [(SAM, "        * const_builder.from_f64(tropical_subgraph_table.cached_factor);", "        * const_builder.from_f64(1.0);")], C11="C11-a")
 
+# ---- C13 ----
+mut("C13 swapped helper arguments", [(SAM, "box_muller(rng.get_random_number(token), rng.get_random_number(token));", "{ let a = rng.get_random_number(token); let b = rng.get_random_number(token); box_muller(b, a) };")], C13="C13-b")
+mut("C13 emits [sin, cos]", [(SAM, "        [box_muller_1, box_muller_2]", "        [box_muller_2, box_muller_1]")], C13="C13-b")
+mut("C13 radius without the factor 2", [(SAM, "let r = (-x1.from_isize(2) * x1.ln()).sqrt();", "let r = (-x1.ln()).sqrt();")], C13="C13-a")
+mut("C13 angle uses x1", [(SAM, "let theta = x1.from_isize(2) * x1.PI() * x2;", "let theta = x1.from_isize(2) * x1.PI() * x1;")], C13="C13-a")
+mut("C13 pair count rounds down", [(SAM, "let num_uniform_variables = num_variables + num_variables % 2;", "let num_uniform_variables = num_variables;")], C13="C13-d", C14="C14-g")
+mut("C13 n + 1 padding (even n: (n+1)/2 = n/2 pairs, odd n: same) is value-equal", [(SAM, "let num_uniform_variables = num_variables + num_variables % 2;", "let num_uniform_variables = num_variables + 1;")], C13="C13-d")
+mut("C13 N: commuted products in the helper", [(SAM, "    (theta.cos() * &r, theta.sin() * &r)", "    (r.ref_mul(&theta.cos()), r.ref_mul(&theta.sin()))")], C13=None)
+mut("C14 dimension pads per loop", [(PRE, "2 * num_edges - 1 + num_gaussian_variables + num_gaussian_variables % 2", "2 * num_edges - 1 + loop_number * (self.dimension + self.dimension % 2)")], C14="C14-g")
+# ---- C15 / C16-d ----
+mut("C15 q_transposed not transposed", [(MAT, "q_transposed[(row, col)] = q[(col, row)].clone();", "q_transposed[(row, col)] = q[(row, col)].clone();")], C15="C15-b")
+mut("C15 q_transposed_inverse not transposed", [(MAT, "q_transposed_inverse[(row, col)] = inverse_q[(col, row)].clone();", "q_transposed_inverse[(row, col)] = inverse_q[(row, col)].clone();")], C15="C15-b")
+mut("C15 inverse factors in the wrong order", [(MAT, "let inverse = &q_transposed_inverse * &inverse_q;", "let inverse = &inverse_q * &q_transposed_inverse;")], C15="C15-b")
+mut("C15 IndexMut transposed offset", [(MAT, "        &mut self.data[index.0 * self.dim + index.1]", "        &mut self.data[index.1 * self.dim + index.0]")], C15="C15-d")
+mut("C15 product sums over the wrong index", [(MAT, "result[(row, col)] += &self[(row, k)].ref_mul(&rhs[(k, col)]);", "result[(row, col)] += &self[(row, k)].ref_mul(&rhs[(col, k)]);")], C15="C15-a")
+mut("C15 determinant not squared", [(MAT, "let determinant = det_q.ref_mul(&det_q);", "let determinant = det_q.clone();")], C15="C15-b")
+mut("C15 N: det via fold result", [(MAT, "let determinant = det_q.ref_mul(&det_q);", "let determinant = det_q.clone() * &det_q;")], C15=None)
+mut("C16 norm sums rows instead of columns", [(MAT, "vec_norm += &self[(i, j)].ref_mul(&self[(i, j)]);", "vec_norm += &self[(j, i)].ref_mul(&self[(j, i)]);")], C16="C16-d")
+mut("C16 norm without the square root", [(MAT, "res += &vec_norm.sqrt();", "res += &vec_norm;")], C16="C16-d")
+mut("C16 identity off by one", [(MAT, "        for i in 0..dim {\n            res[(i, i)] = self.data[0].one();", "        for i in 1..dim {\n            res[(i, i)] = self.data[0].one();")], C16="C16-d")
+
 MUTATIONS = M
